@@ -211,6 +211,16 @@ def _run_case(case, rec, mon=None):
         if own:
             monitor.detach_all()
         return
+    if case["idx"] % 10 == 7 and isinstance(cfg, dict) and cfg.get("name") in gen.DOCUMENTED_ORDER:
+        # the same configuration with every constructor argument given by position, in the documented order.  (What the arguments
+        # mean is what the keyword-built computer above recorded: the monitor's record of the positional one is replaced by it.)
+        try:
+            c2 = gen.build_positional(cfg)
+            compmon.adopt(c2, comp)
+            comp = c2
+            rec.count("computers_built_with_positional_arguments")
+        except Exception as e:
+            rec.violation(dict(what="building an SI computer with positional arguments in the documented order raised %r" % (e,), case=case, check="positional"))
     if case["idx"] % 9 == 4:
         # the computer as a worker process gets it: a deep copy or a pickle round trip - a computer of the same configuration
         from ..common import copied
